@@ -101,7 +101,7 @@ Init ==
   /\ tkq = [k \in TK |-> "none"] /\ tkepoch = [k \in TK |-> 0] /\ tkNext = <<>> /\ tkCur = <<>>
   /\ epoch = 0 /\ inRound = FALSE
   /\ evreg = [e \in EVS |-> FALSE] /\ evq = [e \in EVS |-> FALSE] /\ evPend = <<>> /\ evBatch = <<>>
-  /\ evLocal = FALSE /\ evEmptyNow = FALSE
+  /\ evLocal = <<"none", FALSE>> /\ evEmptyNow = FALSE
   /\ numobjs = 0 /\ numfds = 0 /\ quit = FALSE /\ runTimers = TRUE
   /\ clock = 1 /\ ctime = 0 /\ cvalid = FALSE /\ lastAbs = 0 /\ lastCnt = 0 /\ tfd = -1
   /\ wrel = -1 /\ wuse = FALSE /\ tkhas = [k \in TK |-> FALSE] /\ intr = 0 /\ hist = IF GenMode THEN << [t |-> "init", kc |-> [i \in 1..Cardinality(FD) |-> kcond[i]]] >> ELSE <<>>
@@ -252,8 +252,9 @@ EventPost(e) ==
   /\ hist' = H(Op("ev_post", e, 0, 0, 0))
   /\ IF evq[e] THEN UNCHANGED <<evq, evPend, evLocal, numobjs>>
      ELSE /\ evq' = [evq EXCEPT ![e] = TRUE] /\ evPend' = Append(evPend, e)
-          /\ IF evPend = <<>> /\ ~evLocal     \* post: same thread => events_local task
-             THEN evLocal' = TRUE /\ numobjs' = numobjs + 1
+          /\ IF evPend = <<>> /\ evLocal[1] = "none"   \* post: same thread => events_local task,
+             THEN /\ evLocal' = <<IF inRound /\ ~evLocal[2] THEN "cur" ELSE "next", evLocal[2]>>   \* queued by the task rule
+                  /\ numobjs' = numobjs + 1
              ELSE UNCHANGED <<evLocal, numobjs>>
   /\ mon' = Ev(Ev1([e |-> "PostB", k |-> "ev", o |-> e, n |-> 1, t |-> 0]), A("ev_post", e, 0, 0, 0, <<0, 0>>, 0))
   /\ UNCHANGED <<pc, cb, waits, kern, fdvars, tmvars, tkvars, evreg, evBatch, evEmptyNow, numfds, quit, runTimers, timevars>>
@@ -327,12 +328,16 @@ RunTasksBegin ==
   /\ pc = "tasks" /\ cb = <<>>
   /\ tkCur' = tkNext /\ tkNext' = <<>> /\ epoch' = epoch + 1 /\ inRound' = TRUE
   /\ tkq' = [k \in TK |-> IF tkq[k] = "next" THEN "cur" ELSE tkq[k]]
+  /\ evLocal' = <<IF evLocal[1] = "next" THEN "cur" ELSE evLocal[1], FALSE>>
   /\ pc' = "tpop"
   /\ UNCHANGED hist
-  /\ UNCHANGED <<cb, cbops, ops, waits, kern, fdvars, tmvars, tkepoch, tkhas, evvars, numobjs, numfds, quit, runTimers, timevars, mon>>
+  /\ UNCHANGED <<cb, cbops, ops, waits, kern, fdvars, tmvars, tkepoch, tkhas, evreg, evq, evPend, evBatch, evEmptyNow, numobjs, numfds, quit, runTimers, timevars, mon>>
 
-(* the events_local task is kept outside the TK lists: it runs in the same
-   batch as the tasks that were queued with it *)
+(* the events_local task is kept outside the TK lists (it runs after the user
+   tasks of its batch -- a deviation in order only) but follows the same
+   queueing rule: evLocal = <<where it is queued, whether it already ran in the
+   current epoch>>; a post made from an event handler re-registers it for the
+   round after the next kernel poll *)
 TaskPop ==
   /\ pc = "tpop" /\ cb = <<>>
   /\ IF tkCur # <<>>
@@ -345,9 +350,9 @@ TaskPop ==
           /\ mon' = Ev1(CbB("tk", k, 0, k, 0))
           /\ hist' = H([t |-> "cb", k |-> "tk", o |-> k, b |-> 0])
           /\ UNCHANGED <<pc, inRound, evLocal, evBatch, evPend, evEmptyNow>>
-     ELSE IF evLocal
+     ELSE IF evLocal[1] = "cur"
      THEN (* events_local runs __iv_event_run_pending_events: steal the list *)
-          /\ evLocal' = FALSE /\ numobjs' = numobjs - 1
+          /\ evLocal' = <<"none", TRUE>> /\ numobjs' = numobjs - 1
           /\ evBatch' = evPend /\ evPend' = <<>>
           /\ pc' = "evrun"
           /\ UNCHANGED <<tkCur, tkq, tkepoch, tkhas, cb, cbops, mon, hist, inRound, evEmptyNow>>
@@ -389,7 +394,7 @@ BandsOf(bits) == (IF bits % 2 = 1 \/ bits >= 8 THEN {1} ELSE {}) \cup
                  (IF (bits \div 2) % 2 = 1 \/ bits >= 8 THEN {2} ELSE {}) \cup
                  (IF bits >= 8 THEN {3} ELSE {})
 
-Soonest == IF tkNext # <<>> \/ evLocal THEN 0
+Soonest == IF tkNext # <<>> \/ evLocal[1] # "none" THEN 0
            ELSE IF Heap = {} THEN -1
            ELSE CHOOSE x \in {tmexp[t] : t \in Heap} : \A t \in Heap : x <= tmexp[t]
 
@@ -547,7 +552,7 @@ NoViolation == mon.viols = {}
 (* structural invariants of the code's bookkeeping *)
 NumObjsOK ==
   numobjs = Cardinality({f \in FD : fdreg[f]}) + Cardinality({t \in TM : tmst[t] = "heap"})
-          + Cardinality({k \in TK : tkq[k] # "none"}) + NEv + (IF NEv > 0 THEN 1 ELSE 0) + (IF evLocal THEN 1 ELSE 0)
+          + Cardinality({k \in TK : tkq[k] # "none"}) + NEv + (IF NEv > 0 THEN 1 ELSE 0) + (IF evLocal[1] # "none" THEN 1 ELSE 0)
 ActiveRegistered == \A i \in 1..Len(active) : fdreg[active[i]]
 HandledRegistered == handled # None => fdreg[handled]
 EpollSync == IsEpoll => \A f \in FD : (fdreg[f] /\ ~InSeq(notify, f)) => kreg[f] = Wanted(f)
